@@ -53,7 +53,11 @@ def gen_tables(rng, H, P, lbox=2000.0, with_env=True, dtype=np.float64):
 
 
 def gen_tracers(rng, which, fancy=True):
-    f = (lambda lo, hi: float(rng.uniform(lo, hi))) if fancy else (lambda lo, hi: 0.0)
+    if fancy == 'sparse':
+        # each optional term independently switched off (exactly 0.0) or on: e.g. central-only or satellite-only assembly bias
+        f = lambda lo, hi: (float(rng.uniform(lo, hi)) if rng.random() < 0.5 else 0.0)  # noqa: E731
+    else:
+        f = (lambda lo, hi: float(rng.uniform(lo, hi))) if fancy else (lambda lo, hi: 0.0)
     T = {}
     if 'LRG' in which:
         T['LRG'] = dict(logM_cut=float(rng.uniform(12.6, 13.4)), logM1=float(rng.uniform(13.6, 14.4)), sigma=float(rng.uniform(0.1, 0.9)), alpha=float(rng.uniform(0.8, 1.4)), kappa=float(rng.uniform(0.1, 1.0)),
